@@ -57,6 +57,13 @@ func NewKafkaMdm(key string, matcher matcher.Matcher, topic, codec, schemasFile,
 	if err != nil {
 		return nil, err
 	}
+	if flushMaxWait < 1 {
+		// run() flushes on a ticker with this period, and time.NewTicker panics on a non-positive one
+		return nil, fmt.Errorf("kafkaMdm %q: flushMaxWait must be at least 1 ms", key)
+	}
+	if bufSize < 0 || flushMaxNum < 0 {
+		return nil, fmt.Errorf("kafkaMdm %q: bufSize and flushMaxNum can not be negative", key)
+	}
 
 	cleanAddr := util.AddrToPath(brokers[0])
 
